@@ -191,7 +191,15 @@ func (s *sched) pick(from *thread) *thread {
 		}
 		l, fe := s.enabledList(from)
 		if len(l) == 0 {
-			if s.fireNextTimer() {
+			// background threads (tickers, receive loops) never end: once every harness thread has
+			// finished there is nothing left to wait for
+			alive := false
+			for _, t := range s.threads {
+				if t.main && !t.done {
+					alive = true
+				}
+			}
+			if alive && s.fireNextTimer() {
 				continue
 			}
 			return nil
